@@ -405,43 +405,170 @@ def d3_reader_writer(ctx):
               key="tilde")
 
 
+class _Raises(Exception):
+    pass
+
+
+def _abs_eval(e, st):
+    """Abstract value of an expression of _get_max_int_from_meta: None | 'imec' | 'nidq' | 'NP2' | 'NP1' | bool | ('ret', key, default)."""
+    if isinstance(e, ast.Constant):
+        if isinstance(e.value, str):
+            return {"imec": "imec", "nidq": "nidq"}.get(e.value, ("str", e.value))
+        return e.value
+    if isinstance(e, ast.Name):
+        if e.id in st["env"]:
+            return st["env"][e.id]
+        raise AnalysisError(f"_get_max_int_from_meta: name `{e.id}` not understood")
+    if isinstance(e, ast.Call):
+        nm = call_name(e)
+        if nm == "_get_neuropixel_version_from_meta":
+            return st["L"]
+        if nm == "get" and e.args and isinstance(e.args[0], ast.Constant):
+            if e.args[0].value == "typeThis":
+                return st["T"]
+            dflt = None
+            if len(e.args) > 1:
+                ok, dflt = const_value(e.args[1])
+            return ("md", e.args[0].value, dflt, False)
+        if nm == "int" and e.args:
+            return _abs_eval(e.args[0], st)
+        if nm == "startswith" and isinstance(e.func, ast.Attribute) and e.args and isinstance(e.args[0], ast.Constant):
+            v = _abs_eval(e.func.value, st)
+            if v is None:
+                raise _Raises(f"`{src(e)}` on None")
+            return v == "NP2" if e.args[0].value == "NP2" else (_ for _ in ()).throw(AnalysisError(f"`{src(e)}` not understood"))
+        raise AnalysisError(f"_get_max_int_from_meta: call `{src(e)[:60]}` not understood")
+    if isinstance(e, ast.Subscript) and isinstance(e.slice, ast.Constant) and isinstance(e.slice.value, str):
+        if e.slice.value == "typeThis":
+            return st["T"]
+        return ("md", e.slice.value, None, True)
+    if isinstance(e, ast.BoolOp):
+        last = None
+        for v in e.values:
+            last = _abs_eval(v, st)
+            truth = _truth(last)
+            if isinstance(e.op, ast.Or) and truth:
+                return last
+            if isinstance(e.op, ast.And) and not truth:
+                return last
+        return last
+    if isinstance(e, ast.UnaryOp) and isinstance(e.op, ast.Not):
+        return not _truth(_abs_eval(e.operand, st))
+    if isinstance(e, ast.IfExp):
+        return _abs_eval(e.body if _truth(_abs_eval(e.test, st)) else e.orelse, st)
+    if isinstance(e, ast.Compare) and len(e.ops) == 1:
+        l, r = _abs_eval(e.left, st), _abs_eval(e.comparators[0], st)
+        op = e.ops[0]
+        if isinstance(op, (ast.Is, ast.Eq)):
+            return l == r
+        if isinstance(op, (ast.IsNot, ast.NotEq)):
+            return l != r
+        if isinstance(op, (ast.In, ast.NotIn)):
+            if isinstance(l, tuple) and l[0] == "str" and l[1] == "NP2":
+                if r is None:
+                    raise _Raises(f"`{src(e)}`: 'NP2' in None raises TypeError")
+                res = r == "NP2"
+                return res if isinstance(op, ast.In) else not res
+            if isinstance(r, tuple) and r[0] == "keys":
+                raise AnalysisError(f"`{src(e)}` (metadata key presence) not modelled")
+        raise AnalysisError(f"_get_max_int_from_meta: comparison `{src(e)}` not understood")
+    raise AnalysisError(f"_get_max_int_from_meta: expression `{src(e)[:60]}` not understood")
+
+
+def _truth(v):
+    if v is None or v is False:
+        return False
+    return True
+
+
+def _abs_run(stmts, st):
+    for s_ in stmts:
+        if isinstance(s_, ast.Expr) and isinstance(s_.value, ast.Constant):
+            continue
+        if isinstance(s_, ast.Assign) and len(s_.targets) == 1 and isinstance(s_.targets[0], ast.Name):
+            st["env"][s_.targets[0].id] = _abs_eval(s_.value, st)
+            continue
+        if isinstance(s_, ast.If):
+            r = _abs_run(s_.body if _truth(_abs_eval(s_.test, st)) else s_.orelse, st)
+            if r is not None:
+                return r
+            continue
+        if isinstance(s_, ast.Return):
+            return ("ret", _abs_eval(s_.value, st), s_)
+        if isinstance(s_, ast.Assert):
+            continue
+        raise AnalysisError(f"_get_max_int_from_meta: statement `{src(s_)[:60]}` not understood")
+    return None
+
+
 def d5_maxint(ctx):
-    ctx.rule("D5", "max-int table: NP2 reads imMaxInt (mandatory), NP1 defaults to 512, nidq to 32768")
+    ctx.rule("D5", "max-int decision table, evaluated for every (stream, version argument, version looked up): nidq -> imMaxInt default 32768 whatever version tag the "
+                   "metadata yields or the caller passes; imec NP2 -> imMaxInt (mandatory); imec NP1 -> imMaxInt default 512")
     repo = ctx.repo
     fi = repo.fn("spikeglx._get_max_int_from_meta")
-    from sa.cfg import CFG
-    cfg = CFG(fi.node)
-    rows = []
-    for r in returns_of(fi.node):
-        # which device / probe generation the path condition of this return entails (propositional, shape-independent)
-        at = GD.Atoms()
-        pc = GD.path_condition(cfg, cfg.node_for(r), at)
-        ks = GD.atoms_of(pc)
-        imec = any(GD.entails(pc, GD.Atom(k)) is True for k in ks if "'imec'" in k)
-        nidq = any(GD.entails(pc, GD.Not(GD.Atom(k))) is True for k in ks if "'imec'" in k)
-        np2 = any(GD.entails(pc, GD.Atom(k)) is True for k in ks if "'NP2'" in k)
-        np1 = any(GD.entails(pc, GD.Not(GD.Atom(k))) is True for k in ks if "'NP2'" in k)
-        v = r.value
-        inner = v.args[0] if isinstance(v, ast.Call) and call_name(v) == "int" and v.args else v
-        key = default = None
-        if isinstance(inner, ast.Subscript):
-            ok, key = const_value(inner.slice)
-        elif isinstance(inner, ast.Call) and call_name(inner) == "get":
-            key = inner.args[0].value if inner.args and isinstance(inner.args[0], ast.Constant) else None
-            if len(inner.args) > 1:
-                ok, default = const_value(inner.args[1])
-        rows.append((imec, nidq, np2, np1, key, default, r))
-    want = {("imec", "np2"): ("imMaxInt", None), ("imec", "np1"): ("imMaxInt", 512), ("nidq", None): ("imMaxInt", 32768)}
-    got = {}
-    for imec, nidq, np2, np1, key, default, r in rows:
-        k = ("imec", "np2" if np2 else "np1" if np1 else None) if imec else ("nidq", None) if nidq else None
-        got[k] = (key, default, r)
-    for k, (wk, wd) in want.items():
-        if k not in got:
-            raise AnalysisError(f"_get_max_int_from_meta: branch {k} not recognised")
-        key, default, r = got[k]
-        ctx.check(key == wk and default == wd, fi, r, r, f"{k}: max-int from {wk} default {wd}",
-                  f"{k}: returns `{src(r)}` - expected key {wk!r} with default {wd}", key=f"maxint:{k}")
+    params = [p for p in fi.params]
+    vparam = params[1] if len(params) > 1 else None
+    # does any caller hand over a version it looked up without knowing that the stream is imec?
+    passes_for_any_stream = []
+    if vparam:
+        from sa.calls import bind
+        from sa.cfg import CFG
+        for q, caller in repo.functions.items():
+            if not isinstance(caller.node, (ast.FunctionDef, ast.AsyncFunctionDef)):
+                continue
+            for c in resolved_calls(repo, caller, "spikeglx._get_max_int_from_meta"):
+                b = bind(c, fi)
+                a = b.bound.get(vparam)
+                if a is None or (isinstance(a, ast.Constant) and a.value is None):
+                    continue
+                cfgc = CFG(caller.node)
+                at = GD.Atoms()
+                cn = cfgc.node_for(c)
+                pc = GD.path_condition(cfgc, cn, at) if cn is not None else GD.TRUE
+                imec_known = any(GD.entails(pc, GD.Atom(k)) is True for k in GD.atoms_of(pc) if "'imec'" in k and "typeThis" in k)
+                if not imec_known:
+                    passes_for_any_stream.append((caller, c))
+    combos = []
+    for L in ("NP2", "NP1"):
+        for P in (None, L):
+            combos.append(("imec", P, L))
+    for L in (None, "NP1", "NP2"):
+        combos.append(("nidq", None, L))
+        if L is not None and passes_for_any_stream:
+            combos.append(("nidq", L, L))
+    if not vparam:
+        combos = [c for c in combos if c[1] is None]
+    want = {"nidq": ("imMaxInt", 32768, False), "NP2": ("imMaxInt", None, True), "NP1": ("imMaxInt", 512, False)}
+    seen = set()
+    for T, P, L in combos:
+        st = {"T": T, "L": L, "env": {p: None for p in params}}
+        st["env"][params[0]] = ("mdobj",)
+        if vparam:
+            st["env"][vparam] = P
+        gen = "nidq" if T == "nidq" else (P or L)
+        wk, wd, wmand = want[gen]
+        label = f"typeThis={T}, version argument={P!r}, version in metadata={L!r}"
+        try:
+            r = _abs_run(fi.node.body, st)
+        except _Raises as ex:
+            ctx.violation(fi, fi.node, label, f"for {label} the function raises: {ex}", key=f"maxint:{T}:{P}:{L}", name_free=True)
+            continue
+        if r is None:
+            ctx.violation(fi, fi.node, label, f"for {label} the function returns None", key=f"maxint:{T}:{P}:{L}", name_free=True)
+            continue
+        _, val, node = r
+        ok = isinstance(val, tuple) and val[0] == "md" and val[1] == wk and val[2] == wd and val[3] == wmand
+        extra = ""
+        if not ok and T == "nidq" and P is not None:
+            caller, c = passes_for_any_stream[0]
+            extra = (f" - {caller.qualname} (line {c.lineno}) passes the tag it read from the metadata for any stream; a nidq file whose metadata yields a probe tag "
+                     f"(the 3A-era `typeEnabled` key) is scaled with the probe's max-int: volts-per-bit off by 32768/512")
+        ctx.check(ok, fi, node, f"{label}: {src(node)}", f"{gen}: max-int from {wk}" + (" (mandatory)" if wmand else f" default {wd}"),
+                  f"for {label} the function returns `{src(node.value)}`; expected md[{wk!r}]" + (" (mandatory)" if wmand else f" with default {wd}") + extra,
+                  key=f"maxint:{T}:{P}:{L}", name_free=True)
+        seen.add(gen)
+    if seen != {"nidq", "NP2", "NP1"}:
+        raise AnalysisError("_get_max_int_from_meta: not every device class was evaluated")
 
 
 def d6_sync_indices(ctx):
